@@ -623,7 +623,7 @@ class RegistryModel(object):
 KNOWN = {}
 
 SUBS = [
-    Sub('day_laws', _day_case, run_day_laws, quick=900, thorough=8000,
+    Sub('day_laws', _day_case, run_day_laws, quick=2200, thorough=8000,
         rule='calendar configuration (range 500-1095 days starting on any weekday 1996-2004, weekend in {Sat-Sun, Fri-Sat, Sun, none}, adj in {f,p,m}, '
              'holidays = 0-63% of days at random + 0-4 runs of 1-40 consecutive holidays placed at random / across a month end / around a weekend) x 1-40 points '
              '(t in the interior so that 41 business days either side stay in range, biased to holidays and month ends; n in [-40,40] biased to |n|<=3; '
@@ -632,7 +632,7 @@ SUBS = [
              'non-trivial = some point has t non-business, or its walk crosses >= 2 consecutive holidays, or the modified-following month-end rule fires',
         floor=0.5, class_floors={'pt_month_end_rule': 0.1, 'pt_crosses_run>=2': 0.2, 'pt_holiday_weekday': 0.3, 'run_straddles_month_end': 0.1,
                                  'weekend=none': 0.1, 'weekend=6': 0.1, 'weekend=4,5': 0.1, 'adj=p': 0.15, 'adj=f': 0.15, 'adj=m': 0.15}),
-    Sub('drange_1b', _drange_case, run_drange, quick=1500, thorough=8000,
+    Sub('drange_1b', _drange_case, run_drange, quick=3500, thorough=8000,
         rule='configuration as in day_laws (range 120-500 days) x 1-25 pairs t <= u between the first and last business day, spans 0-12 / 0-90 / anything, '
              'endpoints biased to holidays. Oracle: the list of business days d with adjust(t) <= d <= adjust(u), found by visiting every day, compared as a list '
              '(order, nothing missing, nothing extra). non-trivial = an endpoint is not a business day or a weekday holiday lies inside',
